@@ -51,6 +51,7 @@ type Outcome struct {
 	ExitCode int
 	Output   []byte
 	Delay    time.Duration
+	Hang     bool // the process never exits by itself (a player left open); it ends with the simulation
 }
 
 var (
@@ -144,6 +145,17 @@ func (c *Cmd) Start() error {
 				return
 			}
 			close(spawned)
+			if c.out.Hang {
+				var once sync.Once
+				s.AtDrain(func() {
+					once.Do(func() {
+						finished = true
+						c.runErr = errors.New("simulation ended")
+						close(c.done)
+					})
+				})
+				return
+			}
 			s.Add(&simrt.Event{
 				Key: key + ":exit", Class: "timer", Exact: true, Delay: c.out.Delay,
 				Fire: func() { finished = true; close(c.done) },
